@@ -477,3 +477,949 @@ Proof.
   - destruct (step_ok s d d' Hok Hs) as [Hok' Heq]. destruct (IH Hok') as (E & O & N). split; [congruence|auto].
 Qed.
 End Denote2.
+
+(* ================================================================================================ C05, part 2:
+   the reader decodes every feature as the denotation does (per feature kind) *)
+Lemma cvs_eq views objs l :
+  (fix cvs (l : list lval) : res (list cval) :=
+     match l with [] => Ok [] | x :: r => do y <- cv views objs x ;; do ys <- cvs r ;; Ok (y :: ys) end) l
+  = mapM (cv views objs) l.
+Proof. induction l as [|x r IH]; [reflexivity|]. cbn [mapM]. rewrite <- IH. reflexivity. Qed.
+Lemma cv_LArr views objs k l : cv views objs (LArr k l) = do l' <- mapM (cv views objs) l ;; Ok (CColl k l').
+Proof. cbn [cv]. rewrite cvs_eq. reflexivity. Qed.
+Lemma cv_LLst views objs k l : cv views objs (LLst k l) = do l' <- mapM (cv views objs) l ;; Ok (CColl k l').
+Proof. cbn [cv]. rewrite cvs_eq. reflexivity. Qed.
+Lemma cv_LElems views objs l : cv views objs (LElems l) = do l' <- mapM (cv views objs) l ;; Ok (CColl "" l').
+Proof. cbn [cv]. rewrite cvs_eq. reflexivity. Qed.
+
+Lemma coll_cases r :
+  r = "uima.cas.StringArray" \/ r = "uima.cas.StringList" \/ r = "uima.cas.ByteArray" \/ r = "uima.cas.IntegerArray" \/
+  r = "uima.cas.ShortArray" \/ r = "uima.cas.LongArray" \/ r = "uima.cas.IntegerList" \/ r = "uima.cas.FloatArray" \/
+  r = "uima.cas.DoubleArray" \/ r = "uima.cas.FloatList" \/ r = "uima.cas.BooleanArray" \/ r = "uima.cas.FSArray" \/
+  r = "uima.cas.FSList" \/
+  (coll_kind r = None /\ is_prim_array_name r = false /\ is_prim_list_name r = false /\
+   String.eqb r T_FS_ARRAY = false /\ String.eqb r T_FS_LIST = false).
+Proof.
+  destruct (String.eqb r "uima.cas.StringArray") eqn:E1; [apply String.eqb_eq in E1; tauto|].
+  destruct (String.eqb r "uima.cas.StringList") eqn:E2; [apply String.eqb_eq in E2; tauto|].
+  destruct (String.eqb r "uima.cas.ByteArray") eqn:E3; [apply String.eqb_eq in E3; tauto|].
+  destruct (String.eqb r "uima.cas.IntegerArray") eqn:E4; [apply String.eqb_eq in E4; tauto|].
+  destruct (String.eqb r "uima.cas.ShortArray") eqn:E5; [apply String.eqb_eq in E5; tauto|].
+  destruct (String.eqb r "uima.cas.LongArray") eqn:E6; [apply String.eqb_eq in E6; tauto|].
+  destruct (String.eqb r "uima.cas.IntegerList") eqn:E7; [apply String.eqb_eq in E7; tauto|].
+  destruct (String.eqb r "uima.cas.FloatArray") eqn:E8; [apply String.eqb_eq in E8; tauto|].
+  destruct (String.eqb r "uima.cas.DoubleArray") eqn:E9; [apply String.eqb_eq in E9; tauto|].
+  destruct (String.eqb r "uima.cas.FloatList") eqn:E10; [apply String.eqb_eq in E10; tauto|].
+  destruct (String.eqb r "uima.cas.BooleanArray") eqn:E11; [apply String.eqb_eq in E11; tauto|].
+  destruct (String.eqb r "uima.cas.FSArray") eqn:E12; [apply String.eqb_eq in E12; tauto|].
+  destruct (String.eqb r "uima.cas.FSList") eqn:E13; [apply String.eqb_eq in E13; tauto|].
+  do 13 right.
+  unfold coll_kind, is_prim_array_name, is_prim_list_name, prim_array_names, prim_list_names, T_STRING_ARRAY, T_STRING_LIST, T_FS_ARRAY, T_FS_LIST.
+  cbn [memb]. rewrite E1, E2, E3, E4, E5, E6, E7, E8, E9, E10, E11, E12, E13. cbn. auto.
+Qed.
+Section K.
+Variable pf : string -> option flt.
+Variables (s : schema) (sofas : list (xid * psofa)) (fss : list (xid * lobj)) (views : list (string * lview)) (objs : list (xid * lobj)).
+
+Lemma prim_of_is_primitive r : is_primitive s r = match prim_of s r with Some _ => true | None => false end.
+Proof.
+  unfold is_primitive, prim_of. destruct (is_prim_name r); [reflexivity|]. cbn [orb].
+  induction (sch_anc s r) as [|x l IH]; [reflexivity|]. cbn [existsb find]. destruct (is_prim_name x); [reflexivity|exact IH].
+Qed.
+
+Definition ordinary (ti : tinfo) : Prop := is_array_name (ti_name ti) = false /\ memb T_STRING_ARRAY (ti_anc ti) = false.
+Definition not_sofa_ref (ti : tinfo) (fd : fdecl) : Prop :=
+  String.eqb (fd_name fd) "sofa" && memb T_ANNOTATION_BASE (ti_anc ti) = false.
+
+Lemma ordinary_names ti : ordinary ti -> is_prim_array_name (ti_name ti) = false /\ String.eqb (ti_name ti) T_FS_ARRAY = false.
+Proof. intros [H _]. unfold is_array_name in H. apply orb_false_iff in H. exact H. Qed.
+
+Lemma post_sel_prim ti fd v : ordinary ti -> not_sofa_ref ti fd -> is_primitive s (fd_range fd) = true ->
+  post_feature pf s sofas fss ti fd v = parse_prim_value pf s (fd_range fd) v.
+Proof. intros [_ H2] H3 H4. unfold post_feature. rewrite H3, H2, H4. reflexivity. Qed.
+
+Lemma post_sel_other ti fd v : ordinary ti -> not_sofa_ref ti fd -> is_primitive s (fd_range fd) = false ->
+  post_feature pf s sofas fss ti fd v =
+  let r := fd_range fd in
+  if is_prim_array_name r && negb (fd_multi fd) then
+    match v with LRaw _ => do l <- parse_prim_array pf r v ;; Ok (LArr r l) | _ => Ok v end
+  else if is_prim_list_name r && negb (fd_multi fd) then
+    match v with LRaw _ => parse_prim_list pf r v | _ => Ok v end
+  else
+    match v with
+    | LNone => Ok LNone
+    | _ =>
+      if String.eqb r T_FS_ARRAY && negb (fd_multi fd) then
+        match v with
+        | LRaw a => do l <- mapM (resolve0 fss) (split_ws a) ;; Ok (if String.eqb r T_FS_ARRAY then LArr T_FS_ARRAY l else LElems l)
+        | _ => Err EAttribute
+        end
+      else if String.eqb r T_FS_LIST && negb (fd_multi fd) then
+        match v with
+        | LRaw _ | LKids _ => do t <- toks_of v ;; do l <- mapM (resolve_tok fss) t ;; Ok (LLst T_FS_LIST l)
+        | _ => Ok v
+        end
+      else
+        match v with
+        | LRaw a => do i <- int_attr a ;; match zlookup i fss with Some _ => Ok (LRef i) | None => Err EKey end
+        | LInt i => match zlookup i fss with Some _ => Ok (LRef i) | None => Err EKey end
+        | _ => Err EType
+        end
+    end.
+Proof.
+  intros Ho H3 H4. destruct (ordinary_names ti Ho) as [Ha Hf]. destruct Ho as [_ H2].
+  unfold post_feature. rewrite H3, H2, H4, Ha, Hf. reflexivity.
+Qed.
+End K.
+Section K2.
+Variable pf : string -> option flt.
+Variables (s : schema) (sofas : list (xid * psofa)) (fss : list (xid * lobj)) (views : list (string * lview)) (objs : list (xid * lobj)).
+(* the global fact the per-feature lemmas use: a pointer taken from the dict reads back as the id it was taken for; only
+   the object of cas:NULL (id 0) reads back as null *)
+Definition deref_ok : Prop :=
+  forall i o, zlookup i fss = Some o -> deref objs i = Ok (if i =? 0 then CNull else CRef i).
+Hypothesis Hderef : deref_ok.
+
+Lemma conv_int_corr t v c : conv_int (Some t) = Ok v -> dec_prim pf PInt t = Ok c -> cv views objs v = Ok c.
+Proof. unfold conv_int, dec_prim. destruct (s2z t); intros H1 H2; inversion H1; inversion H2; subst. reflexivity. Qed.
+Lemma conv_flt_corr t v c : conv_flt pf (Some t) = Ok v -> dec_prim pf PFlt t = Ok c -> cv views objs v = Ok c.
+Proof. unfold conv_flt, dec_prim. destruct (pf t); intros H1 H2; inversion H1; inversion H2; subst. reflexivity. Qed.
+Lemma conv_bool_corr t v c : conv_bool (Some t) = Ok v -> dec_prim pf PBool t = Ok c -> cv views objs v = Ok c.
+Proof. unfold conv_bool, dec_prim. destruct (s2b t); intros H1 H2; inversion H1; inversion H2; subst. reflexivity. Qed.
+Lemma resolve0_corr t v c : resolve0 fss t = Ok v -> dec_id t = Ok c -> cv views objs v = Ok c.
+Proof.
+  unfold resolve0, dec_id, int_attr. destruct (s2z t) as [i|]; cbn [bind]; [|discriminate].
+  destruct (i =? 0) eqn:E.
+  - apply Z.eqb_eq in E. subst. intros H1 H2. inversion H1; inversion H2; subst. reflexivity.
+  - destruct (zlookup i fss) as [o|] eqn:El; [|discriminate]. intros H1 H2. inversion H1; subst. cbn [cv].
+    rewrite (Hderef _ _ El), E. destruct i; try discriminate; exact H2.
+Qed.
+Lemma toks_corr (conv : option string -> res lval) (dec : string -> res cval) :
+  (forall t v c, conv (Some t) = Ok v -> dec t = Ok c -> cv views objs v = Ok c) ->
+  forall toks l cl, mapM conv (map Some toks) = Ok l -> mapM dec toks = Ok cl -> mapM (cv views objs) l = Ok cl.
+Proof.
+  intros Hc. induction toks as [|t r IH]; intros l cl H1 H2.
+  - cbn in H1, H2. inversion H1; inversion H2; subst. reflexivity.
+  - cbn [map] in H1. apply mapM_cons_ok in H1 as (v & vs & Hv & Hvs & ->). apply mapM_cons_ok in H2 as (c & cs & Hcc & Hcs & ->).
+    cbn [mapM]. rewrite (Hc _ _ _ Hv Hcc). cbn [bind]. rewrite (IH _ _ Hvs Hcs). reflexivity.
+Qed.
+Lemma kids_corr l : mapM (cv views objs) (map lv_kid (map kid_text l)) = Ok (dec_strs l).
+Proof.
+  induction l as [|t r IH]; [reflexivity|]. cbn [map mapM dec_strs]. unfold dec_strs in IH. rewrite IH.
+  unfold kid_text. destruct (String.eqb t ""); reflexivity.
+Qed.
+Lemma bytes_corr l : mapM (cv views objs) (map LInt l) = Ok (map CInt l).
+Proof. induction l as [|t r IH]; [reflexivity|]. cbn [map mapM cv]. rewrite IH. reflexivity. Qed.
+
+Lemma prim_corr r p a v0 v1 c : prim_of s r = Some p ->
+  (v0 = LRaw a \/ exists z, s2z a = Some z /\ v0 = LInt z /\ pkind_of_prim p = PInt) ->
+  parse_prim_value pf s r v0 = Ok v1 -> dec_prim pf (pkind_of_prim p) a = Ok c -> cv views objs v1 = Ok c.
+Proof.
+  intros Hp Hv. unfold parse_prim_value. destruct Hv as [->|(z & Hz & -> & Hk)]; rewrite Hp.
+  - destruct (pkind_of_prim p).
+    + apply conv_int_corr.
+    + apply conv_flt_corr.
+    + apply conv_bool_corr.
+    + intros H1 H2. inversion H1; subst. cbn in H2. inversion H2. reflexivity.
+  - rewrite Hk. intros H1 H2. inversion H1; subst. unfold dec_prim in H2. rewrite Hz in H2. inversion H2. reflexivity.
+Qed.
+End K2.
+Ltac is_val b := match b with true => idtac | false => idtac | Some _ => idtac | None => idtac end.
+Ltac ev f := repeat (progress match goal with
+  | |- context [f ?n] => let b := eval vm_compute in (f n) in is_val b; change (f n) with b
+  | H : context [f ?n] |- _ => let b := eval vm_compute in (f n) in is_val b; change (f n) with b in H end).
+Ltac ev2 f := repeat (progress match goal with
+  | |- context [f ?n ?m] => let b := eval vm_compute in (f n m) in is_val b; change (f n m) with b
+  | H : context [f ?n ?m] |- _ => let b := eval vm_compute in (f n m) in is_val b; change (f n m) with b in H end).
+
+Section K3.
+Variable pf : string -> option flt.
+Variables (s : schema) (sofas : list (xid * psofa)) (fss : list (xid * lobj)) (views : list (string * lview)) (objs : list (xid * lobj)).
+Hypothesis Hderef : deref_ok fss objs.
+
+Lemma resolve0_toks l : mapM (resolve0 fss) l = mapM (resolve_tok fss) (map Some l).
+Proof. induction l as [|t r IH]; [reflexivity|]. cbn [map mapM resolve_tok]. rewrite IH. reflexivity. Qed.
+(* a collection feature written as one attribute *)
+Lemma coll_attr_corr r k e n a v1 c (other : res lval) :
+  coll_kind r = Some k -> xkids e n = [] -> xattr e n = Some a ->
+  (if is_prim_array_name r then do l <- parse_prim_array pf r (LRaw a) ;; Ok (LArr r l)
+   else if is_prim_list_name r then parse_prim_list pf r (LRaw a)
+   else if String.eqb r T_FS_ARRAY then
+     do l <- mapM (resolve0 fss) (split_ws a) ;; Ok (if String.eqb r T_FS_ARRAY then LArr T_FS_ARRAY l else LElems l)
+   else if String.eqb r T_FS_LIST then do t <- toks_of (LRaw a) ;; do l <- mapM (resolve_tok fss) t ;; Ok (LLst T_FS_LIST l)
+   else other) = Ok v1 ->
+  dec_coll pf k e n = Ok c ->
+  cv views objs v1 = Ok (match c with Some l => CColl r l | None => CNull end).
+Proof.
+  intros Hk Hkids Ha Hpost Hdec.
+  destruct (coll_cases r) as [Hr|[Hr|[Hr|[Hr|[Hr|[Hr|[Hr|[Hr|[Hr|[Hr|[Hr|[Hr|[Hr|(Hr & _)]]]]]]]]]]]]];
+    try (rewrite Hr in Hk; discriminate); subst r;
+    ev is_prim_array_name; ev is_prim_list_name; ev coll_kind; ev2 String.eqb; cbv iota in Hpost;
+    inversion Hk; subst k; clear Hk; unfold dec_coll in Hdec; rewrite ?Hkids, ?Ha in Hdec.
+  - (* StringArray *)
+    unfold parse_prim_array in Hpost. cbn [toks_of bind] in Hpost. ev2 String.eqb. cbv iota in Hpost. cbn [orb] in Hpost.
+    destruct (String.eqb a "") eqn:E; [|discriminate]. apply String.eqb_eq in E. subst a. cbn in Hpost.
+    inversion Hpost; inversion Hdec; subst. reflexivity.
+  - (* StringList *)
+    unfold parse_prim_list in Hpost. ev2 String.eqb. cbv iota in Hpost. cbn [toks_of bind] in Hpost.
+    destruct (String.eqb a "") eqn:E; [|discriminate]. apply String.eqb_eq in E. subst a. cbn in Hpost.
+    inversion Hpost; inversion Hdec; subst. reflexivity.
+  - (* ByteArray *)
+    unfold parse_prim_array in Hpost. cbn [toks_of bind] in Hpost. ev2 String.eqb. cbv iota in Hpost. cbn [orb] in Hpost.
+    destruct (parse_hex a) as [l|]; [|discriminate]. cbn [bind] in Hpost. inversion Hpost; inversion Hdec; subst.
+    rewrite cv_LArr, bytes_corr. reflexivity.
+  - (* IntegerArray *)
+    unfold parse_prim_array in Hpost. cbn [toks_of bind] in Hpost. ev2 String.eqb. cbv iota in Hpost. cbn [orb] in Hpost.
+    apply bind_ok in Hpost as (l & Hl & Hpost). apply bind_ok in Hdec as (cl & Hcl & Hdec). inversion Hpost; inversion Hdec; subst.
+    rewrite cv_LArr, (toks_corr views objs conv_int (dec_prim pf PInt) (conv_int_corr pf views objs) _ _ _ Hl Hcl). reflexivity.
+  - unfold parse_prim_array in Hpost. cbn [toks_of bind] in Hpost. ev2 String.eqb. cbv iota in Hpost. cbn [orb] in Hpost.
+    apply bind_ok in Hpost as (l & Hl & Hpost). apply bind_ok in Hdec as (cl & Hcl & Hdec). inversion Hpost; inversion Hdec; subst.
+    rewrite cv_LArr, (toks_corr views objs conv_int (dec_prim pf PInt) (conv_int_corr pf views objs) _ _ _ Hl Hcl). reflexivity.
+  - unfold parse_prim_array in Hpost. cbn [toks_of bind] in Hpost. ev2 String.eqb. cbv iota in Hpost. cbn [orb] in Hpost.
+    apply bind_ok in Hpost as (l & Hl & Hpost). apply bind_ok in Hdec as (cl & Hcl & Hdec). inversion Hpost; inversion Hdec; subst.
+    rewrite cv_LArr, (toks_corr views objs conv_int (dec_prim pf PInt) (conv_int_corr pf views objs) _ _ _ Hl Hcl). reflexivity.
+  - (* IntegerList *)
+    unfold parse_prim_list in Hpost. ev2 String.eqb. cbv iota in Hpost. cbn [toks_of bind] in Hpost.
+    apply bind_ok in Hpost as (l & Hl & Hpost). apply bind_ok in Hdec as (cl & Hcl & Hdec). inversion Hpost; inversion Hdec; subst.
+    rewrite cv_LLst, (toks_corr views objs conv_int (dec_prim pf PInt) (conv_int_corr pf views objs) _ _ _ Hl Hcl). reflexivity.
+  - (* FloatArray *)
+    unfold parse_prim_array in Hpost. cbn [toks_of bind] in Hpost. ev2 String.eqb. cbv iota in Hpost. cbn [orb] in Hpost.
+    apply bind_ok in Hpost as (l & Hl & Hpost). apply bind_ok in Hdec as (cl & Hcl & Hdec). inversion Hpost; inversion Hdec; subst.
+    rewrite cv_LArr, (toks_corr views objs (conv_flt pf) (dec_prim pf PFlt) (conv_flt_corr pf views objs) _ _ _ Hl Hcl). reflexivity.
+  - unfold parse_prim_array in Hpost. cbn [toks_of bind] in Hpost. ev2 String.eqb. cbv iota in Hpost. cbn [orb] in Hpost.
+    apply bind_ok in Hpost as (l & Hl & Hpost). apply bind_ok in Hdec as (cl & Hcl & Hdec). inversion Hpost; inversion Hdec; subst.
+    rewrite cv_LArr, (toks_corr views objs (conv_flt pf) (dec_prim pf PFlt) (conv_flt_corr pf views objs) _ _ _ Hl Hcl). reflexivity.
+  - (* FloatList *)
+    unfold parse_prim_list in Hpost. ev2 String.eqb. cbv iota in Hpost. cbn [toks_of bind] in Hpost.
+    apply bind_ok in Hpost as (l & Hl & Hpost). apply bind_ok in Hdec as (cl & Hcl & Hdec). inversion Hpost; inversion Hdec; subst.
+    rewrite cv_LLst, (toks_corr views objs (conv_flt pf) (dec_prim pf PFlt) (conv_flt_corr pf views objs) _ _ _ Hl Hcl). reflexivity.
+  - (* BooleanArray *)
+    unfold parse_prim_array in Hpost. cbn [toks_of bind] in Hpost. ev2 String.eqb. cbv iota in Hpost. cbn [orb] in Hpost.
+    apply bind_ok in Hpost as (l & Hl & Hpost). apply bind_ok in Hdec as (cl & Hcl & Hdec). inversion Hpost; inversion Hdec; subst.
+    rewrite cv_LArr, (toks_corr views objs conv_bool (dec_prim pf PBool) (conv_bool_corr pf views objs) _ _ _ Hl Hcl). reflexivity.
+  - (* FSArray *)
+    apply bind_ok in Hpost as (l & Hl & Hpost). apply bind_ok in Hdec as (cl & Hcl & Hdec). inversion Hpost; inversion Hdec; subst.
+    rewrite resolve0_toks in Hl.
+    rewrite cv_LArr, (toks_corr views objs (resolve_tok fss) dec_id (resolve0_corr fss views objs Hderef) _ _ _ Hl Hcl). reflexivity.
+  - (* FSList *)
+    cbn [toks_of bind] in Hpost.
+    apply bind_ok in Hpost as (l & Hl & Hpost). apply bind_ok in Hdec as (cl & Hcl & Hdec). inversion Hpost; inversion Hdec; subst.
+    rewrite cv_LLst, (toks_corr views objs (resolve_tok fss) dec_id (resolve0_corr fss views objs Hderef) _ _ _ Hl Hcl). reflexivity.
+Qed.
+End K3.
+Section K4.
+Variable pf : string -> option flt.
+Variables (s : schema) (sofas : list (xid * psofa)) (fss : list (xid * lobj)) (views : list (string * lview)) (objs : list (xid * lobj)).
+Hypothesis Hderef : deref_ok fss objs.
+
+(* the value pass 1 leaves in the slot of a feature of an ordinary element *)
+Definition proto_rel (e : xelem) (fd : fdecl) (v0 : lval) : Prop :=
+  let n := fd_xname fd in
+  let r := fd_range fd in
+  match xkids e n with
+  | [] => match xattr e n with
+          | None => v0 = LNone
+          | Some a => v0 = LRaw a \/ exists z, s2z a = Some z /\ v0 = LInt z /\ fkind_of s fd = FPrim PInt
+          end
+  | l => fkind_of s fd = FStrColl /\
+         v0 = (if String.eqb r T_STRING_ARRAY then LArr r (map lv_kid (map kid_text l)) else LLst r (map lv_kid (map kid_text l)))
+  end.
+
+Lemma coll_kind_shape r k : coll_kind r = Some k -> k = FStrColl \/ k = FBytes \/ k = FIdColl \/ exists p, k = FTokColl p.
+Proof.
+  unfold coll_kind. repeat (match goal with |- context [if ?b then _ else _] => destruct b end);
+    intros H; inversion H; subst; eauto.
+Qed.
+Lemma dec_coll_absent k e n : (k = FStrColl \/ k = FBytes \/ k = FIdColl \/ exists p, k = FTokColl p) ->
+  xkids e n = [] -> xattr e n = None -> dec_coll pf k e n = Ok None.
+Proof. intros [->|[->|[->|(p & ->)]]] Hk Ha; unfold dec_coll; rewrite ?Hk, Ha; reflexivity. Qed.
+
+Lemma ref_corr a v1 c :
+  (do i <- int_attr a ;; match zlookup i fss with Some _ => Ok (LRef i) | None => Err EKey end) = Ok v1 ->
+  dec_id a = Ok c -> cv views objs v1 = Ok c.
+Proof.
+  unfold int_attr, dec_id. destruct (s2z a) as [i|]; cbn [bind]; [|discriminate].
+  destruct (zlookup i fss) as [o|] eqn:El; [|discriminate]. intros H1 H2. inversion H1; subst v1. cbn [cv].
+  rewrite (Hderef _ _ El). destruct i; cbn [Z.eqb]; exact H2.
+Qed.
+
+Theorem post_feature_dec ti fd e v0 v1 c :
+  ordinary ti -> not_sofa_ref ti fd -> proto_rel e fd v0 ->
+  post_feature pf s sofas fss ti fd v0 = Ok v1 ->
+  dec_feature pf s (fun z => z) false e fd = Ok c ->
+  cv views objs v1 = Ok c.
+Proof.
+  intros Ho Hn Hp Hpost Hdec. unfold dec_feature in Hdec. unfold proto_rel in Hp. unfold fkind_of in *.
+  destruct (prim_of s (fd_range fd)) as [p|] eqn:Hprim.
+  - (* a primitive feature *)
+    rewrite (post_sel_prim pf s sofas fss ti fd v0 Ho Hn) in Hpost by (rewrite prim_of_is_primitive, Hprim; reflexivity).
+    destruct (xkids e (fd_xname fd)) as [|k0 kr]; [|destruct Hp as [Hp _]; discriminate].
+    destruct (xattr e (fd_xname fd)) as [a|].
+    + apply bind_ok in Hdec as (v & Hv & Hc). cbn [andb] in Hc. inversion Hc; subst c.
+      eapply (prim_corr pf s views objs (fd_range fd) p a v0 v1 v Hprim); eauto.
+      destruct Hp as [->|(z & Hz & -> & Hk)]; [left; reflexivity|right]. exists z. inversion Hk. auto.
+    + subst v0. cbn in Hpost. inversion Hpost; inversion Hdec; subst. reflexivity.
+  - rewrite (post_sel_other pf s sofas fss ti fd v0 Ho Hn) in Hpost by (rewrite prim_of_is_primitive, Hprim; reflexivity).
+    cbv zeta in Hpost. destruct (fd_multi fd) eqn:Hm; cbn [negb] in Hpost; rewrite ?andb_false_r, ?andb_true_r in Hpost.
+    + (* a reference to a separately stored structure *)
+      destruct (xkids e (fd_xname fd)) as [|k0 kr]; [|destruct Hp as [Hp _]; discriminate].
+      destruct (xattr e (fd_xname fd)) as [a|].
+      * destruct Hp as [->|(z & _ & _ & Hk)]; [|discriminate]. eapply ref_corr; eauto.
+      * subst v0. inversion Hpost; inversion Hdec; subst. reflexivity.
+    + destruct (coll_kind (fd_range fd)) as [k|] eqn:Hck.
+      * (* a collection held inline *)
+        pose proof (coll_kind_shape _ _ Hck) as Hshape.
+        assert (Hdec' : exists o, dec_coll pf k e (fd_xname fd) = Ok o /\ c = match o with Some l => CColl (fd_range fd) l | None => CNull end).
+        { destruct Hshape as [->|[->|[->|(p & ->)]]]; apply bind_ok in Hdec as (o & Ho' & Hc); inversion Hc; eauto. }
+        destruct Hdec' as (o & Hdo & ->). clear Hdec.
+        destruct (xkids e (fd_xname fd)) as [|k0 kr] eqn:Hkids.
+        -- destruct (xattr e (fd_xname fd)) as [a|] eqn:Hattr.
+           ++ destruct Hp as [->|(z & _ & _ & Hk)];
+                [|exfalso; destruct Hshape as [->|[->|[->|(p & ->)]]]; discriminate].
+              eapply coll_attr_corr; eauto.
+           ++ subst v0. rewrite (dec_coll_absent k e _ Hshape Hkids Hattr) in Hdo. inversion Hdo; subst o.
+              destruct (is_prim_array_name (fd_range fd)); [inversion Hpost; reflexivity|].
+              destruct (is_prim_list_name (fd_range fd)); inversion Hpost; reflexivity.
+        -- destruct Hp as [Hk ->]. subst k. unfold dec_coll in Hdo. rewrite Hkids in Hdo. injection Hdo as <-.
+           destruct (coll_cases (fd_range fd)) as [Hr|[Hr|[Hr|[Hr|[Hr|[Hr|[Hr|[Hr|[Hr|[Hr|[Hr|[Hr|[Hr|(Hr & _)]]]]]]]]]]]]];
+             rewrite Hr in Hck; try discriminate; rewrite Hr in *;
+             ev is_prim_array_name; ev is_prim_list_name; ev2 String.eqb; cbv iota in Hpost; injection Hpost as <-.
+           ++ change (cv views objs (LArr "uima.cas.StringArray" (map lv_kid (map kid_text (k0 :: kr))))
+                      = Ok (CColl "uima.cas.StringArray" (dec_strs (k0 :: kr)))).
+              rewrite cv_LArr, kids_corr. reflexivity.
+           ++ change (cv views objs (LLst "uima.cas.StringList" (map lv_kid (map kid_text (k0 :: kr))))
+                      = Ok (CColl "uima.cas.StringList" (dec_strs (k0 :: kr)))).
+              rewrite cv_LLst, kids_corr. reflexivity.
+      * (* any other range: a reference *)
+        destruct (coll_cases (fd_range fd)) as [Hr|[Hr|[Hr|[Hr|[Hr|[Hr|[Hr|[Hr|[Hr|[Hr|[Hr|[Hr|[Hr|(_ & Ha & Hl & Hfa & Hfl)]]]]]]]]]]]]];
+          try (rewrite Hr in Hck; discriminate).
+        rewrite Ha, Hl, Hfa, Hfl in Hpost.
+        destruct (xkids e (fd_xname fd)) as [|k0 kr]; [|destruct Hp as [Hp _]; discriminate].
+        destruct (xattr e (fd_xname fd)) as [a|].
+        -- destruct Hp as [->|(z & _ & _ & Hk)]; [|discriminate]. eapply ref_corr; eauto.
+        -- subst v0. inversion Hpost; inversion Hdec; subst. reflexivity.
+Qed.
+End K4.
+Section Arr.
+Variable pf : string -> option flt.
+Variables (s : schema) (sofas : list (xid * psofa)) (fss : list (xid * lobj)) (views : list (string * lview)) (objs : list (xid * lobj)).
+Hypothesis Hderef : deref_ok fss objs.
+
+(* an array stored as an element of its own: its one feature `elements` *)
+Definition proto_arr (tn : tname) (e : xelem) (v0 : lval) : Prop :=
+  match xkids e "elements" with
+  | [] => match xattr e "elements" with None => v0 = LNone | Some a => v0 = LRaw a end
+  | l => tn = T_STRING_ARRAY /\ v0 = LKids (map kid_text l)
+  end.
+Lemma cv_kids_corr l : map cv_kid (map kid_text l) = dec_strs l.
+Proof. induction l as [|t r IH]; [reflexivity|]. cbn [map dec_strs]. unfold dec_strs in IH. rewrite IH. unfold kid_text. destruct (String.eqb t ""); reflexivity. Qed.
+
+Theorem post_elements_dec ti fd k e v0 v1 o :
+  coll_kind (ti_name ti) = Some k -> is_array_name (ti_name ti) = true ->
+  fd_name fd = "elements" -> fd_range fd = T_TOP -> is_primitive s T_TOP = false ->
+  memb T_STRING_ARRAY (ti_anc ti) = String.eqb (ti_name ti) T_STRING_ARRAY ->
+  proto_arr (ti_name ti) e v0 ->
+  post_feature pf s sofas fss ti fd v0 = Ok v1 ->
+  dec_coll pf k e "elements" = Ok o ->
+  cv views objs v1 = Ok (match o with Some l => CColl "" l | None => CNull end).
+Proof.
+  intros Hk Harr Hn Hr Hprim Hsa Hp Hpost Hdec. unfold post_feature in Hpost. rewrite Hn, Hr, Hsa, Hprim in Hpost.
+  unfold proto_arr in Hp. unfold dec_coll in Hdec.
+  destruct (coll_cases (ti_name ti)) as [Ht|[Ht|[Ht|[Ht|[Ht|[Ht|[Ht|[Ht|[Ht|[Ht|[Ht|[Ht|[Ht|(Ht & _)]]]]]]]]]]]]];
+    try (rewrite Ht in Hk; discriminate); rewrite Ht in *; try discriminate Harr;
+    ev is_prim_array_name; ev is_prim_list_name; ev coll_kind; ev2 String.eqb; ev is_array_name; cbv iota in Hpost; cbn [andb orb negb] in Hpost;
+    injection Hk as <-.
+  - (* StringArray *)
+    destruct (xkids e "elements") as [|k0 kr] eqn:Hkids.
+    + destruct (xattr e "elements") as [a|]; subst v0.
+      * unfold parse_prim_array in Hpost. cbn [toks_of bind] in Hpost. ev2 String.eqb. cbv iota in Hpost. cbn [orb] in Hpost.
+        destruct (String.eqb a "") eqn:E; [|discriminate]. apply String.eqb_eq in E. subst a. cbn in Hpost.
+        injection Hpost as <-. injection Hdec as <-. reflexivity.
+      * injection Hpost as <-. injection Hdec as <-. reflexivity.
+    + remember (k0 :: kr) as kl eqn:Ekl. destruct Hp as [_ ->]. injection Hpost as <-. injection Hdec as <-. cbn [cv]. rewrite cv_kids_corr. reflexivity.
+  - destruct (xkids e "elements") as [|k0 kr] eqn:Hkids; [|destruct Hp as [Hp _]; discriminate Hp].
+    destruct (xattr e "elements") as [a|]; subst v0.
+    + unfold parse_prim_array in Hpost. cbn [toks_of bind] in Hpost. ev2 String.eqb. cbv iota in Hpost. cbn [orb] in Hpost.
+      destruct (parse_hex a) as [l|]; [|discriminate]. cbn [bind] in Hpost. injection Hpost as <-. injection Hdec as <-.
+      rewrite cv_LElems, bytes_corr. reflexivity.
+    + injection Hpost as <-. injection Hdec as <-. reflexivity.
+  - destruct (xkids e "elements") as [|k0 kr] eqn:Hkids; [|destruct Hp as [Hp _]; discriminate Hp].
+    destruct (xattr e "elements") as [a|]; subst v0.
+    + unfold parse_prim_array in Hpost. cbn [toks_of bind] in Hpost. ev2 String.eqb. cbv iota in Hpost. cbn [orb] in Hpost.
+      apply bind_ok in Hpost as (l & Hl & Hpost). apply bind_ok in Hdec as (cl & Hcl & Hdec).
+      injection Hpost as <-. injection Hdec as <-.
+      rewrite cv_LElems, (toks_corr views objs conv_int (dec_prim pf PInt) (conv_int_corr pf views objs) _ _ _ Hl Hcl). reflexivity.
+    + injection Hpost as <-. injection Hdec as <-. reflexivity.
+  - destruct (xkids e "elements") as [|k0 kr] eqn:Hkids; [|destruct Hp as [Hp _]; discriminate Hp].
+    destruct (xattr e "elements") as [a|]; subst v0.
+    + unfold parse_prim_array in Hpost. cbn [toks_of bind] in Hpost. ev2 String.eqb. cbv iota in Hpost. cbn [orb] in Hpost.
+      apply bind_ok in Hpost as (l & Hl & Hpost). apply bind_ok in Hdec as (cl & Hcl & Hdec).
+      injection Hpost as <-. injection Hdec as <-.
+      rewrite cv_LElems, (toks_corr views objs conv_int (dec_prim pf PInt) (conv_int_corr pf views objs) _ _ _ Hl Hcl). reflexivity.
+    + injection Hpost as <-. injection Hdec as <-. reflexivity.
+  - destruct (xkids e "elements") as [|k0 kr] eqn:Hkids; [|destruct Hp as [Hp _]; discriminate Hp].
+    destruct (xattr e "elements") as [a|]; subst v0.
+    + unfold parse_prim_array in Hpost. cbn [toks_of bind] in Hpost. ev2 String.eqb. cbv iota in Hpost. cbn [orb] in Hpost.
+      apply bind_ok in Hpost as (l & Hl & Hpost). apply bind_ok in Hdec as (cl & Hcl & Hdec).
+      injection Hpost as <-. injection Hdec as <-.
+      rewrite cv_LElems, (toks_corr views objs conv_int (dec_prim pf PInt) (conv_int_corr pf views objs) _ _ _ Hl Hcl). reflexivity.
+    + injection Hpost as <-. injection Hdec as <-. reflexivity.
+  - destruct (xkids e "elements") as [|k0 kr] eqn:Hkids; [|destruct Hp as [Hp _]; discriminate Hp].
+    destruct (xattr e "elements") as [a|]; subst v0.
+    + unfold parse_prim_array in Hpost. cbn [toks_of bind] in Hpost. ev2 String.eqb. cbv iota in Hpost. cbn [orb] in Hpost.
+      apply bind_ok in Hpost as (l & Hl & Hpost). apply bind_ok in Hdec as (cl & Hcl & Hdec).
+      injection Hpost as <-. injection Hdec as <-.
+      rewrite cv_LElems, (toks_corr views objs (conv_flt pf) (dec_prim pf PFlt) (conv_flt_corr pf views objs) _ _ _ Hl Hcl). reflexivity.
+    + injection Hpost as <-. injection Hdec as <-. reflexivity.
+  - destruct (xkids e "elements") as [|k0 kr] eqn:Hkids; [|destruct Hp as [Hp _]; discriminate Hp].
+    destruct (xattr e "elements") as [a|]; subst v0.
+    + unfold parse_prim_array in Hpost. cbn [toks_of bind] in Hpost. ev2 String.eqb. cbv iota in Hpost. cbn [orb] in Hpost.
+      apply bind_ok in Hpost as (l & Hl & Hpost). apply bind_ok in Hdec as (cl & Hcl & Hdec).
+      injection Hpost as <-. injection Hdec as <-.
+      rewrite cv_LElems, (toks_corr views objs (conv_flt pf) (dec_prim pf PFlt) (conv_flt_corr pf views objs) _ _ _ Hl Hcl). reflexivity.
+    + injection Hpost as <-. injection Hdec as <-. reflexivity.
+  - destruct (xkids e "elements") as [|k0 kr] eqn:Hkids; [|destruct Hp as [Hp _]; discriminate Hp].
+    destruct (xattr e "elements") as [a|]; subst v0.
+    + unfold parse_prim_array in Hpost. cbn [toks_of bind] in Hpost. ev2 String.eqb. cbv iota in Hpost. cbn [orb] in Hpost.
+      apply bind_ok in Hpost as (l & Hl & Hpost). apply bind_ok in Hdec as (cl & Hcl & Hdec).
+      injection Hpost as <-. injection Hdec as <-.
+      rewrite cv_LElems, (toks_corr views objs conv_bool (dec_prim pf PBool) (conv_bool_corr pf views objs) _ _ _ Hl Hcl). reflexivity.
+    + injection Hpost as <-. injection Hdec as <-. reflexivity.
+  - destruct (xkids e "elements") as [|k0 kr] eqn:Hkids; [|destruct Hp as [Hp _]; discriminate Hp].
+    destruct (xattr e "elements") as [a|]; subst v0.
+    + apply bind_ok in Hpost as (l & Hl & Hpost). apply bind_ok in Hdec as (cl & Hcl & Hdec).
+      injection Hpost as <-. injection Hdec as <-. rewrite resolve0_toks in Hl.
+      rewrite cv_LElems, (toks_corr views objs (resolve_tok fss) dec_id (resolve0_corr fss views objs Hderef) _ _ _ Hl Hcl). reflexivity.
+    + injection Hpost as <-. injection Hdec as <-. reflexivity.
+Qed.
+End Arr.
+(* ================================================================================================ dicts *)
+Lemma alookup_aset {V} k k' (v : V) d : alookup k (aset k' v d) = if String.eqb k k' then Some v else alookup k d.
+Proof.
+  induction d as [|[k0 v0] r IH]; cbn [aset alookup].
+  - destruct (String.eqb k k'); reflexivity.
+  - destruct (String.eqb k' k0) eqn:E; cbn [alookup].
+    + apply String.eqb_eq in E. subst k0. destruct (String.eqb k k'); reflexivity.
+    + rewrite IH. destruct (String.eqb k k0) eqn:E0; [|reflexivity].
+      apply String.eqb_eq in E0. subst k0. rewrite String.eqb_sym in E. rewrite E. reflexivity.
+Qed.
+Lemma alookup_app {V} k (l1 l2 : list (string * V)) :
+  alookup k (l1 ++ l2) = match alookup k l1 with Some v => Some v | None => alookup k l2 end.
+Proof. induction l1 as [|[k0 v0] r IH]; cbn [app alookup]; [reflexivity|]. destruct (String.eqb k k0); [reflexivity|exact IH]. Qed.
+Lemma alookup_update {V} k (l d : list (string * V)) :
+  alookup k (update d l) = match alookup k (rev l) with Some v => Some v | None => alookup k d end.
+Proof.
+  unfold update. revert d; induction l as [|[k' v] l IH]; intros d; cbn [fold_left rev]; [reflexivity|].
+  rewrite IH, alookup_app, alookup_aset. cbn [fst snd alookup]. destruct (alookup k (rev l)); [reflexivity|].
+  destruct (String.eqb k k'); reflexivity.
+Qed.
+Lemma aset_keys_in {V} k (v : V) d k' : In k' (map fst (aset k v d)) -> k' = k \/ In k' (map fst d).
+Proof.
+  induction d as [|[k0 v0] r IH]; cbn [aset map fst In].
+  - intros [H|[]]. left. symmetry. exact H.
+  - destruct (String.eqb k k0) eqn:E; cbn [map fst In].
+    + tauto.
+    + intros [H|H]; [tauto|]. apply IH in H. tauto.
+Qed.
+Lemma aset_keys_nodup {V} k (v : V) d : NoDup (map fst d) -> NoDup (map fst (aset k v d)).
+Proof.
+  induction d as [|[k0 v0] r IH]; cbn [aset map fst]; intros ND.
+  - constructor; [intros []|constructor].
+  - inversion ND as [|? ? Hn ND']; subst. destruct (String.eqb k k0) eqn:E; cbn [map fst].
+    + constructor; assumption.
+    + constructor; [|apply IH; exact ND']. intros Hin. apply aset_keys_in in Hin as [H|H]; [|contradiction].
+      subst. rewrite String.eqb_refl in E. discriminate.
+Qed.
+Lemma update_keys_nodup {V} (l d : list (string * V)) : NoDup (map fst d) -> NoDup (map fst (update d l)).
+Proof.
+  unfold update. revert d; induction l as [|[k v] l IH]; intros d ND; cbn [fold_left]; [exact ND|].
+  apply IH. apply aset_keys_nodup. exact ND.
+Qed.
+Lemma dict_of_nodup {V} (l : list (string * V)) : NoDup (map fst (dict_of l)).
+Proof. apply update_keys_nodup. constructor. Qed.
+Lemma alookup_rev_nodup {V} k (l : list (string * V)) : NoDup (map fst l) -> alookup k (rev l) = alookup k l.
+Proof. intros ND. symmetry. apply alookup_perm; [apply Permutation_rev|exact ND]. Qed.
+Lemma alookup_dict_of {V} k (l : list (string * V)) : NoDup (map fst l) -> alookup k (dict_of l) = alookup k l.
+Proof. intros ND. unfold dict_of. rewrite alookup_update. rewrite (alookup_rev_nodup k l ND). destruct (alookup k l); reflexivity. Qed.
+Lemma alookup_map_inj {V W} (f : string -> string) (g : V -> W) k (l : list (string * V)) :
+  (forall k', In k' (map fst l) -> f k' = f k -> k' = k) ->
+  alookup (f k) (map (fun kv => (f (fst kv), g (snd kv))) l) = option_map g (alookup k l).
+Proof.
+  induction l as [|[k0 v0] r IH]; intros Hinj; cbn [map alookup fst snd]; [reflexivity|].
+  destruct (String.eqb k k0) eqn:E.
+  - apply String.eqb_eq in E. subst k0. rewrite String.eqb_refl. reflexivity.
+  - destruct (String.eqb (f k) (f k0)) eqn:E'.
+    + apply String.eqb_eq in E'. rewrite (Hinj k0 (or_introl eq_refl) (eq_sym E')) in E. rewrite String.eqb_refl in E. discriminate.
+    + apply IH. intros k' Hin. apply Hinj. right. exact Hin.
+Qed.
+Lemma alookup_none_notin {V} k (l : list (string * V)) : alookup k l = None <-> ~ In k (map fst l).
+Proof.
+  induction l as [|[k0 v0] r IH]; cbn [alookup map fst In]; [tauto|].
+  destruct (String.eqb k k0) eqn:E.
+  - apply String.eqb_eq in E. subst. split; [discriminate|]. intros H. exfalso. apply H. left. reflexivity.
+  - rewrite IH. split; [intros H [H1|H1]; [subst; rewrite String.eqb_refl in E; discriminate|auto]|tauto].
+Qed.
+
+(* children[tag].append(text) *)
+Definition kt (k : string) (l : list (string * string)) : list (option string) :=
+  map kid_text (map snd (filter (fun p => String.eqb (fst p) k) l)).
+Lemma alookup_group_kids k l : forall acc,
+  alookup k (group_kids l acc) =
+  match kt k l with
+  | [] => alookup k acc
+  | ts => Some ((match alookup k acc with Some old => old | None => [] end) ++ ts)
+  end.
+Proof.
+  unfold kt. induction l as [|[k0 t0] r IH]; intros acc; cbn [group_kids filter map fst snd]; [reflexivity|].
+  rewrite IH, alookup_aset. rewrite (String.eqb_sym k0 k). destruct (String.eqb k k0) eqn:E; cbn [map].
+  - apply String.eqb_eq in E. subst k0.
+    destruct (map kid_text (map snd (filter (fun p => String.eqb (fst p) k) r))) as [|t1 ts];
+      destruct (alookup k acc) as [old|]; cbn [app]; try reflexivity; rewrite <- ?app_assoc; reflexivity.
+  - reflexivity.
+Qed.
+Lemma group_kids_nodup l : forall acc, NoDup (map fst acc) -> NoDup (map fst (group_kids l acc)).
+Proof.
+  induction l as [|[k0 t0] r IH]; intros acc ND; cbn [group_kids]; [exact ND|]. apply IH. apply aset_keys_nodup. exact ND.
+Qed.
+Lemma group_kids_keys k l : forall acc, In k (map fst (group_kids l acc)) -> In k (map fst acc) \/ In k (map fst l).
+Proof.
+  induction l as [|[k0 t0] r IH]; intros acc Hin; cbn [group_kids] in Hin; [left; exact Hin|].
+  apply IH in Hin as [Hin|Hin]; [|right; right; exact Hin].
+  apply aset_keys_in in Hin as [->|Hin]; [right; left; reflexivity|left; exact Hin].
+Qed.
+(* ================================================================================================ C05, part 3:
+   what pass 1 leaves in the slots of an object *)
+Lemma sch_find_name s n ti : sch_find s n = Some ti -> ti_name ti = n.
+Proof.
+  induction s as [|t r IH]; cbn [sch_find]; [discriminate|]. destruct (String.eqb n (ti_name t)) eqn:E; [|exact IH].
+  intros H. inversion H; subst. apply String.eqb_eq in E. auto.
+Qed.
+Lemma pyname_inj a b : reserved_free a = true -> reserved_free b = true -> pyname a = pyname b -> a = b.
+Proof.
+  unfold reserved_free, pyname. intros Ha Hb.
+  apply negb_true_iff, orb_false_iff in Ha as [Ha1 Ha2]. apply negb_true_iff, orb_false_iff in Hb as [Hb1 Hb2].
+  destruct (String.eqb a "self") eqn:A1; [apply String.eqb_eq in A1; subst a|];
+  [|destruct (String.eqb a "type") eqn:A2; [apply String.eqb_eq in A2; subst a|]];
+  (destruct (String.eqb b "self") eqn:B1; [apply String.eqb_eq in B1; subst b|];
+   [|destruct (String.eqb b "type") eqn:B2; [apply String.eqb_eq in B2; subst b|]]);
+  cbn [orb]; intros H; try reflexivity; try discriminate H;
+  try (subst b; cbn in Hb1, Hb2; discriminate); try (subst a; cbn in Ha1, Ha2; discriminate); try exact H.
+Qed.
+Lemma pyname_id_ne x : String.eqb x A_ID = false -> String.eqb (pyname x) A_ID = false.
+Proof.
+  unfold pyname. destruct (String.eqb x "self") eqn:A1; [apply String.eqb_eq in A1; subst x; reflexivity|].
+  destruct (String.eqb x "type") eqn:A2; [apply String.eqb_eq in A2; subst x; reflexivity|]. cbn [orb]. auto.
+Qed.
+Lemma alookup_adel_ne {V} k k' (d : list (string * V)) : String.eqb k k' = false -> alookup k (adel k' d) = alookup k d.
+Proof.
+  intros Hne. induction d as [|[k0 v0] r IH]; cbn [adel alookup]; [reflexivity|].
+  destruct (String.eqb k' k0) eqn:E.
+  - apply String.eqb_eq in E. subst k0. rewrite Hne. reflexivity.
+  - cbn [alookup]. rewrite IH. reflexivity.
+Qed.
+Lemma alookup_map_val {V W} (g : V -> W) k (l : list (string * V)) :
+  alookup k (map (fun kv => (fst kv, g (snd kv))) l) = option_map g (alookup k l).
+Proof. induction l as [|[k0 v0] r IH]; cbn [map alookup fst snd]; [reflexivity|]. destruct (String.eqb k k0); [reflexivity|exact IH]. Qed.
+Lemma map_fst_map_val {V W} (g : V -> W) (l : list (string * V)) : map fst (map (fun kv => (fst kv, g (snd kv))) l) = map fst l.
+Proof. rewrite map_map. apply map_ext. reflexivity. Qed.
+
+(* int() of begin / end / sofa *)
+Lemma intify_lookup names : forall a a', intify names a = Ok a' -> forall k,
+  (memb k names = false -> alookup k a' = alookup k a) /\
+  (memb k names = true ->
+     match alookup k a with
+     | None => alookup k a' = None
+     | Some (LRaw v) => exists z, s2z v = Some z /\ alookup k a' = Some (LInt z)
+     | Some _ => False
+     end).
+Proof.
+  induction names as [|n r IH]; intros a a' H k; cbn [intify memb] in *.
+  - inversion H; subst. split; [reflexivity|discriminate].
+  - destruct (alookup n a) as [vn|] eqn:En.
+    + destruct vn; try discriminate. apply bind_ok in H as (z & Hz & H). destruct (IH _ _ H k) as [I1 I2].
+      unfold int_attr in Hz. destruct (s2z a0) as [z'|] eqn:Es; [|discriminate]. inversion Hz; subst z'.
+      destruct (String.eqb k n) eqn:E; cbn [orb].
+      * apply String.eqb_eq in E. subst k. split; [discriminate|]. intros _. rewrite En.
+        exists z. split; [exact Es|].
+        destruct (memb n r) eqn:Em.
+        -- specialize (I2 eq_refl). rewrite alookup_aset, String.eqb_refl in I2. contradiction.
+        -- rewrite (I1 eq_refl), alookup_aset, String.eqb_refl. reflexivity.
+      * rewrite alookup_aset, E in I1, I2. split; assumption.
+    + destruct (IH _ _ H k) as [I1 I2]. destruct (String.eqb k n) eqn:E; cbn [orb].
+      * apply String.eqb_eq in E. subst k. split; [discriminate|]. intros _. rewrite En.
+        destruct (memb n r) eqn:Em; [specialize (I2 eq_refl); rewrite En in I2; exact I2|rewrite (I1 eq_refl); exact En].
+      * split; assumption.
+Qed.
+Section Pass1.
+Variable pf : string -> option flt.
+
+Definition wrapped_val (fd : fdecl) (l : list (option string)) (old : option lval) : option lval :=
+  if is_prim_list_name (fd_range fd) then
+    match parse_prim_list pf (fd_range fd) (LKids l) with Ok v => Some v | _ => None end
+  else if is_prim_array_name (fd_range fd) then Some (LArr (fd_range fd) (map lv_kid l))
+  else old.
+Lemma wrap_kids_lookup feats : forall kids a a', wrap_kids pf feats kids a = Ok a' -> NoDup (map fst kids) -> forall n,
+  match alookup n kids with
+  | None => alookup n a' = alookup n a
+  | Some l => exists fd, fd_find feats n = Some fd /\ alookup n a' = wrapped_val fd l (alookup n a)
+  end.
+Proof.
+  induction kids as [|[n0 l0] r IH]; intros a a' H ND n; cbn [wrap_kids alookup map fst] in *.
+  - inversion H; subst. reflexivity.
+  - inversion ND as [|? ? Hn0 ND']; subst.
+    destruct (fd_find feats n0) as [fd|] eqn:Ef; [|discriminate].
+    apply bind_ok in H as (a2 & Ha2 & H). specialize (IH _ _ H ND' n).
+    destruct (String.eqb n n0) eqn:E.
+    + apply String.eqb_eq in E. subst n0.
+      assert (Hr : alookup n r = None) by (apply alookup_none_notin; exact Hn0). rewrite Hr in IH.
+      exists fd. split; [exact Ef|]. rewrite IH. unfold wrapped_val.
+      destruct (is_prim_list_name (fd_range fd)).
+      * apply bind_ok in Ha2 as (v & Hv & Ha2). inversion Ha2; subst a2. rewrite Hv, alookup_aset, String.eqb_refl. reflexivity.
+      * inversion Ha2; subst a2. destruct (is_prim_array_name (fd_range fd)); [rewrite alookup_aset, String.eqb_refl|]; reflexivity.
+    + assert (Hx : alookup n a2 = alookup n a).
+      { destruct (is_prim_list_name (fd_range fd)).
+        - apply bind_ok in Ha2 as (v & Hv & Ha2). inversion Ha2; subst a2. rewrite alookup_aset, E.
+          destruct (is_prim_array_name (fd_range fd)); [rewrite alookup_aset, E|]; reflexivity.
+        - inversion Ha2; subst a2. destruct (is_prim_array_name (fd_range fd)); [rewrite alookup_aset, E|]; reflexivity. }
+      rewrite Hx in IH. exact IH.
+Qed.
+
+Lemma fd_find_in feats fd : NoDup (map fd_name feats) -> In fd feats -> fd_find feats (fd_name fd) = Some fd.
+Proof.
+  induction feats as [|f r IH]; intros ND Hin; [contradiction|]. cbn [fd_find map] in *. inversion ND as [|? ? Hn ND']; subst.
+  destruct Hin as [->|Hin]; [rewrite String.eqb_refl; reflexivity|].
+  destruct (String.eqb (fd_name fd) (fd_name f)) eqn:E; [|apply IH; assumption].
+  apply String.eqb_eq in E. exfalso. apply Hn. rewrite <- E. apply in_map. exact Hin.
+Qed.
+Lemma alookup_feat_map {V} (g : fdecl -> V) feats fd : NoDup (map fd_name feats) -> In fd feats ->
+  alookup (fd_name fd) (map (fun fd => (fd_name fd, g fd)) feats) = Some (g fd).
+Proof.
+  induction feats as [|f r IH]; intros ND Hin; [contradiction|]. cbn [map alookup] in *. inversion ND as [|? ? Hn ND']; subst.
+  destruct Hin as [->|Hin]; [rewrite String.eqb_refl; reflexivity|].
+  destruct (String.eqb (fd_name fd) (fd_name f)) eqn:E; [|apply IH; assumption].
+  apply String.eqb_eq in E. exfalso. apply Hn. rewrite <- E. apply in_map. exact Hin.
+Qed.
+Lemma lslot_mk ti i a o fd : mk_obj ti i a = Ok o -> NoDup (map fd_name (ti_feats ti)) -> In fd (ti_feats ti) ->
+  lo_type o = ti_name ti /\ lo_id o = i /\
+  lslot o (fd_name fd) = match alookup (fd_name fd) a with Some v => v | None => LNone end.
+Proof.
+  unfold mk_obj. destruct (forallb _ a); [|discriminate]. intros H ND Hin. inversion H; subst o. cbn [lo_type lo_id].
+  split; [reflexivity|split; [reflexivity|]]. unfold lslot. cbn [lo_slots].
+  rewrite (alookup_feat_map (fun fd => match alookup (fd_name fd) a with Some v => v | None => LNone end) _ _ ND Hin). reflexivity.
+Qed.
+Lemma kt_nil k l : ~ In k (map fst l) -> kt k l = [].
+Proof.
+  unfold kt. induction l as [|[k0 t0] r IH]; intros H; [reflexivity|]. cbn [filter fst map In] in *.
+  destruct (String.eqb k0 k) eqn:E; [apply String.eqb_eq in E; subst; exfalso; apply H; left; reflexivity|].
+  apply IH. intros Hin. apply H. right. exact Hin.
+Qed.
+Lemma kt_xkids e k : kt k (x_kids e) = map kid_text (xkids e k).
+Proof. reflexivity. Qed.
+Lemma kt_in k l : kt k l <> [] -> In k (map fst l).
+Proof.
+  unfold kt. induction l as [|[k0 t0] r IH]; intros H; [contradiction H; reflexivity|]. cbn [filter fst map In] in *.
+  destruct (String.eqb k0 k) eqn:E; [apply String.eqb_eq in E; left; exact E|right; apply IH; exact H].
+Qed.
+
+(* attributes.update(children) after the python-name remapping of both *)
+Lemma a0_lookup e x :
+  NoDup (map (fun kv => pyname (fst kv)) (x_attrs e)) ->
+  Forall (fun kv => reserved_free (fst kv) = true) (x_attrs e) ->
+  Forall (fun kv => reserved_free (fst kv) = true) (x_kids e) ->
+  reserved_free x = true ->
+  let kids := dict_of (map (fun kv => (pyname (fst kv), snd kv)) (group_kids (x_kids e) [])) in
+  let a0 := update (dict_of (map (fun kv => (pyname (fst kv), LRaw (snd kv))) (x_attrs e)))
+                   (map (fun kv => (fst kv, LKids (snd kv))) kids) in
+  alookup (pyname x) kids = (match kt x (x_kids e) with [] => None | ts => Some ts end) /\
+  alookup (pyname x) a0 = match kt x (x_kids e) with [] => option_map LRaw (xattr e x) | ts => Some (LKids ts) end.
+Proof.
+  intros NDa Fa Fk Hx kids a0.
+  assert (Hg : forall k', In k' (map fst (group_kids (x_kids e) [])) -> pyname k' = pyname x -> k' = x).
+  { intros k' Hin Hpy. apply pyname_inj; auto. apply group_kids_keys in Hin as [[]|Hin].
+    apply in_map_iff in Hin as (kv & <- & Hkv). rewrite Forall_forall in Fk. apply Fk. exact Hkv. }
+  assert (NDg : NoDup (map fst (map (fun kv : string * list (option string) => (pyname (fst kv), snd kv)) (group_kids (x_kids e) [])))).
+  { rewrite map_map. cbn [fst].
+    assert (NDk := group_kids_nodup (x_kids e) [] (NoDup_nil _)).
+    assert (Hk : forall k', In k' (map fst (group_kids (x_kids e) [])) -> reserved_free k' = true).
+    { intros k' Hin. apply group_kids_keys in Hin as [[]|Hin]. apply in_map_iff in Hin as (kv & <- & Hkv).
+      rewrite Forall_forall in Fk. apply Fk. exact Hkv. }
+    revert NDk Hk. generalize (group_kids (x_kids e) []). intros g. induction g as [|[k0 l0] g IH]; cbn [map fst]; intros NDk Hk; [constructor|].
+    inversion NDk as [|? ? Hn NDk']; subst. constructor; [|apply IH; [exact NDk'|intros; apply Hk; right; assumption]].
+    intros Hin. apply in_map_iff in Hin as ([k1 l1] & Hpy & Hin1). cbn [fst] in Hpy. apply Hn.
+    assert (k1 = k0).
+    { apply pyname_inj; [apply Hk; right; apply in_map_iff; exists (k1, l1); auto|apply Hk; left; reflexivity|exact Hpy]. }
+    subst k1. apply in_map_iff. exists (k0, l1). auto. }
+  assert (Hkids : alookup (pyname x) kids = match kt x (x_kids e) with [] => None | ts => Some ts end).
+  { unfold kids. rewrite (alookup_dict_of _ _ NDg).
+    rewrite (alookup_map_inj pyname (fun l => l) x (group_kids (x_kids e) []) Hg).
+    rewrite alookup_group_kids. cbn [alookup]. destruct (kt x (x_kids e)); reflexivity. }
+  split; [exact Hkids|].
+  unfold a0. rewrite alookup_update.
+  rewrite (alookup_rev_nodup _ _ (eq_ind_r (fun l => NoDup l) (dict_of_nodup _) (map_fst_map_val LKids kids))).
+  rewrite (alookup_map_val LKids), Hkids.
+  destruct (kt x (x_kids e)) as [|t ts]; [|reflexivity]. cbn [option_map].
+  assert (NDA : NoDup (map fst (map (fun kv : string * string => (pyname (fst kv), LRaw (snd kv))) (x_attrs e)))).
+  { rewrite map_map. exact NDa. }
+  rewrite (alookup_dict_of _ _ NDA). unfold xattr.
+  apply (alookup_map_inj pyname LRaw x (x_attrs e)).
+  intros k' Hin Hpy. apply pyname_inj; auto. apply in_map_iff in Hin as (kv & <- & Hkv). rewrite Forall_forall in Fa. apply Fa. exact Hkv.
+Qed.
+End Pass1.
+Section Pass1b.
+Variable pf : string -> option flt.
+
+Lemma fkind_eqb_eq a b : fkind_eqb a b = true -> a = b.
+Proof. destruct a as [[]| |[]| | |], b as [[]| |[]| | |]; cbn; intros H; try discriminate; reflexivity. Qed.
+Lemma feat_name_inj feats fd fd' : NoDup (map fd_name feats) -> In fd feats -> In fd' feats -> fd_name fd = fd_name fd' -> fd = fd'.
+Proof.
+  intros ND H1 H2 E. pose proof (fd_find_in feats fd ND H1) as F1. pose proof (fd_find_in feats fd' ND H2) as F2.
+  rewrite E in F1. congruence.
+Qed.
+
+Record ti_ok (s : schema) (ti : tinfo) : Prop := mkTiOk {
+  tk_nodup : NoDup (map fd_name (ti_feats ti));
+  tk_feat : forall fd, In fd (ti_feats ti) ->
+      fd_name fd = pyname (fd_xname fd) /\ reserved_free (fd_xname fd) = true /\ String.eqb (fd_xname fd) A_ID = false;
+  tk_base : memb T_ANNOTATION_BASE (ti_anc ti) = true -> forall fd, In fd (ti_feats ti) ->
+      (fd_name fd = "sofa" -> fkind_of s fd = FRef) /\
+      (fd_name fd = "begin" \/ fd_name fd = "end" -> fkind_of s fd = FPrim PInt);
+  tk_ann : memb T_ANNOTATION (ti_anc ti) = true -> memb T_ANNOTATION_BASE (ti_anc ti) = true;
+  tk_sa : memb T_STRING_ARRAY (ti_anc ti) = String.eqb (ti_name ti) T_STRING_ARRAY;
+  tk_arr : is_array_name (ti_name ti) = true ->
+      exists fd, ti_feats ti = [fd] /\ fd_name fd = "elements" /\ fd_xname fd = "elements" /\ fd_range fd = T_TOP }.
+Lemma ti_okb_ok s ti : ti_okb s ti = true -> ti_ok s ti.
+Proof.
+  unfold ti_okb. rewrite !andb_true_iff. intros [[[[[H1 H2] H3] H4] H5] H6]. constructor.
+  - apply nodup_sb_NoDup. exact H1.
+  - intros fd Hin. rewrite forallb_forall in H2. specialize (H2 fd Hin). rewrite !andb_true_iff, negb_true_iff in H2.
+    destruct H2 as [[A B] C]. apply String.eqb_eq in A. auto.
+  - intros Hb fd Hin. rewrite Hb in H3. cbn [negb orb] in H3. rewrite forallb_forall in H3. specialize (H3 fd Hin). split.
+    + intros E. rewrite E in H3. cbn in H3. apply fkind_eqb_eq. exact H3.
+    + intros E. destruct (String.eqb (fd_name fd) "sofa") eqn:Es.
+      { apply String.eqb_eq in Es. destruct E as [E|E]; rewrite E in Es; discriminate. }
+      destruct E as [E|E]; rewrite E in H3; cbn in H3; apply fkind_eqb_eq; exact H3.
+  - intros Ha. rewrite Ha in H4. cbn in H4. exact H4.
+  - apply Bool.eqb_prop. exact H5.
+  - intros Ha. rewrite Ha in H6. cbn [negb orb] in H6. destruct (ti_feats ti) as [|fd [|]]; try discriminate.
+    rewrite !andb_true_iff in H6. destruct H6 as [[A B] C]. apply String.eqb_eq in A, B, C. exists fd. auto.
+Qed.
+
+Lemma strcoll_range s fd : fkind_of s fd = FStrColl ->
+  prim_of s (fd_range fd) = None /\ fd_multi fd = false /\ (fd_range fd = T_STRING_ARRAY \/ fd_range fd = T_STRING_LIST).
+Proof.
+  unfold fkind_of. destruct (prim_of s (fd_range fd)); [discriminate|]. destruct (fd_multi fd); [discriminate|].
+  intros H. split; [reflexivity|split; [reflexivity|]].
+  destruct (coll_cases (fd_range fd)) as [Hr|[Hr|[Hr|[Hr|[Hr|[Hr|[Hr|[Hr|[Hr|[Hr|[Hr|[Hr|[Hr|(Hr & _)]]]]]]]]]]]]];
+    rewrite Hr in H; try discriminate H; auto.
+Qed.
+
+Definition slot_rel (s : schema) (ti : tinfo) (e : xelem) (fd : fdecl) (v : lval) : Prop :=
+  if String.eqb (fd_name fd) "sofa" && memb T_ANNOTATION_BASE (ti_anc ti)
+  then xkids e (fd_xname fd) = [] /\
+       match xattr e (fd_xname fd) with None => v = LNone | Some a => exists z, s2z a = Some z /\ v = LInt z end
+  else proto_rel s e fd v.
+End Pass1b.
+Section Pass1c.
+Variable pf : string -> option flt.
+
+Record elem_ok (s : schema) (ti : tinfo) (e : xelem) : Prop := mkElOk {
+  ek_nodup : NoDup (map (fun kv => pyname (fst kv)) (x_attrs e));
+  ek_attrs : Forall (fun kv => reserved_free (fst kv) = true) (x_attrs e);
+  ek_kids : Forall (fun kv => kid_okb s ti (fst kv) = true) (x_kids e) }.
+Lemma elem_okb_ok s e ti : sch_find s (reader_tname (x_ns e) (x_tag e)) = Some ti -> elem_okb s e = true -> elem_ok s ti e.
+Proof.
+  unfold elem_okb. intros ->. rewrite !andb_true_iff. intros [[H1 H2] H3]. constructor.
+  - apply nodup_sb_NoDup in H1. exact H1.
+  - apply Forall_forall. rewrite forallb_forall in H2. exact H2.
+  - apply Forall_forall. rewrite forallb_forall in H3. exact H3.
+Qed.
+Lemma kids_reserved s ti e : elem_ok s ti e -> Forall (fun kv => reserved_free (fst kv) = true) (x_kids e).
+Proof.
+  intros [_ _ H]. eapply Forall_impl; [|exact H]. intros kv Hk. unfold kid_okb in Hk. rewrite !andb_true_iff in Hk. tauto.
+Qed.
+Lemma kids_no_id s ti e : elem_ok s ti e -> kt A_ID (x_kids e) = [].
+Proof.
+  intros [_ _ H]. apply kt_nil. intros Hin. apply in_map_iff in Hin as (kv & Hk & Hin). rewrite Forall_forall in H.
+  specialize (H kv Hin). unfold kid_okb in H. rewrite Hk in H. cbn in H. discriminate.
+Qed.
+(* a child element named like a feature of an ordinary type: the feature is a string array / string list held inline *)
+Lemma kid_strcoll s ti e fd : ti_ok s ti -> elem_ok s ti e -> is_array_name (ti_name ti) = false ->
+  In fd (ti_feats ti) -> kt (fd_xname fd) (x_kids e) <> [] -> fkind_of s fd = FStrColl.
+Proof.
+  intros Hti [_ _ Hk] Harr Hin Hkt. apply kt_in in Hkt. apply in_map_iff in Hkt as (kv & Hkv & Hkin).
+  rewrite Forall_forall in Hk. specialize (Hk kv Hkin). unfold kid_okb in Hk. rewrite Harr in Hk. rewrite !andb_true_iff in Hk.
+  destruct Hk as [_ Hk]. apply existsb_exists in Hk as (fd' & Hin' & Hk). apply andb_true_iff in Hk as [Hn Hkind].
+  apply String.eqb_eq in Hn. apply fkind_eqb_eq in Hkind.
+  assert (fd' = fd); [|subst; exact Hkind].
+  apply (feat_name_inj (ti_feats ti) fd' fd (tk_nodup _ _ Hti) Hin' Hin).
+  destruct (tk_feat s ti Hti fd Hin) as (-> & _). destruct (tk_feat s ti Hti fd' Hin') as (-> & _). congruence.
+Qed.
+
+Theorem parse_fs_slot s e ti o fd :
+  sch_find s (reader_tname (x_ns e) (x_tag e)) = Some ti -> ti_ok s ti -> elem_ok s ti e ->
+  is_array_name (ti_name ti) = false ->
+  parse_fs pf s e = Ok o -> In fd (ti_feats ti) ->
+  lo_type o = ti_name ti /\ x_id e = Ok (lo_id o) /\ slot_rel s ti e fd (lslot o (fd_name fd)).
+Proof.
+  intros Hfind Hti Hel Harr Hparse Hin.
+  pose proof (sch_find_name _ _ _ Hfind) as Hname.
+  destruct (tk_feat s ti Hti fd Hin) as (Hpy & Hres & Hnid).
+  pose proof (a0_lookup e (fd_xname fd) (ek_nodup _ _ _ Hel) (ek_attrs _ _ _ Hel) (kids_reserved _ _ _ Hel) Hres) as [Lk L0].
+  pose proof (a0_lookup e A_ID (ek_nodup _ _ _ Hel) (ek_attrs _ _ _ Hel) (kids_reserved _ _ _ Hel) eq_refl) as [_ Lid].
+  cbv zeta in Lk, L0, Lid. rewrite (kids_no_id _ _ _ Hel) in Lid. change (pyname A_ID) with A_ID in Lid.
+  unfold parse_fs, parse_fs_with, get_type_exact in Hparse. rewrite Hfind in Hparse. cbn [bind] in Hparse.
+  apply bind_ok in Hparse as (i & Hi & Hparse). apply bind_ok in Hparse as (a2 & Ha2 & Hparse).
+  apply bind_ok in Hparse as (a3 & Ha3 & Hparse).
+  destruct (lslot_mk ti i a3 o fd Hparse (tk_nodup _ _ Hti) Hin) as (Ht & Hid & Hslot).
+  split; [exact Ht|]. split.
+  { rewrite Lid in Hi. unfold x_id. destruct (xattr e A_ID) as [a|]; cbn [option_map] in Hi; [|discriminate]. rewrite Hid. exact Hi. }
+  rewrite Hslot. clear Hslot Hparse.
+  assert (Hpa : is_prim_array_name (reader_tname (x_ns e) (x_tag e)) = false).
+  { rewrite <- Hname. unfold is_array_name in Harr. apply orb_false_iff in Harr. tauto. }
+  rewrite Hpa in Ha3.
+  pose proof (wrap_kids_lookup pf (ti_feats ti) _ _ _ Ha3 (dict_of_nodup _) (fd_name fd)) as Hw.
+  rewrite Hpy in Hw. rewrite Lk in Hw. rewrite <- Hpy in Hw.
+  (* the slot before the children are wrapped *)
+  assert (H1 : alookup (fd_name fd) (adel A_ID (update (dict_of (map (fun kv => (pyname (fst kv), LRaw (snd kv))) (x_attrs e)))
+                  (map (fun kv => (fst kv, LKids (snd kv)))
+                     (dict_of (map (fun kv => (pyname (fst kv), snd kv)) (group_kids (x_kids e) []))))))
+               = match kt (fd_xname fd) (x_kids e) with [] => option_map LRaw (xattr e (fd_xname fd)) | ts => Some (LKids ts) end).
+  { rewrite alookup_adel_ne; [rewrite Hpy; exact L0|]. rewrite Hpy. apply pyname_id_ne. exact Hnid. }
+  unfold slot_rel, proto_rel. rewrite kt_xkids in *.
+  destruct (xkids e (fd_xname fd)) as [|k0 kr] eqn:Hkids; cbn [map] in Hw, H1.
+  - (* no child elements of this name *)
+    rewrite Hw. clear Hw.
+    destruct (memb T_ANNOTATION_BASE (ti_anc ti)) eqn:Hbase.
+    + pose proof (intify_lookup _ _ _ Ha2 (fd_name fd)) as [I1 I2]. rewrite H1 in I1, I2.
+      destruct (memb (fd_name fd) ["begin"; "end"; "sofa"]) eqn:Hm.
+      * specialize (I2 eq_refl). destruct (tk_base _ _ Hti Hbase fd Hin) as [Bs Bbe].
+        destruct (String.eqb (fd_name fd) "sofa") eqn:Es; cbn [andb].
+        -- split; [reflexivity|]. destruct (xattr e (fd_xname fd)) as [a|]; cbn [option_map] in I2.
+           ++ destruct I2 as (z & Hz & ->). exists z. auto.
+           ++ rewrite I2. reflexivity.
+        -- destruct (xattr e (fd_xname fd)) as [a|]; cbn [option_map] in I2.
+           ++ destruct I2 as (z & Hz & ->). right. exists z. split; [exact Hz|split; [reflexivity|]]. apply Bbe.
+              cbn [memb] in Hm. rewrite Es in Hm. rewrite !orb_false_r in Hm. apply orb_true_iff in Hm as [Hm|Hm]; apply String.eqb_eq in Hm; auto.
+           ++ rewrite I2. reflexivity.
+      * rewrite (I1 eq_refl). assert (Es : String.eqb (fd_name fd) "sofa" = false).
+        { cbn [memb] in Hm. rewrite !orb_false_iff in Hm. tauto. }
+        rewrite Es. cbn [andb]. destruct (xattr e (fd_xname fd)); cbn [option_map]; auto.
+    + inversion Ha2; subst a2. rewrite H1. rewrite andb_false_r. destruct (xattr e (fd_xname fd)); cbn [option_map]; auto.
+  - (* child elements: a string array / string list feature *)
+    assert (Hkind : fkind_of s fd = FStrColl).
+    { apply (kid_strcoll s ti e fd Hti Hel); auto. rewrite kt_xkids, Hkids. discriminate. }
+    destruct (strcoll_range _ _ Hkind) as (Hprim & Hmulti & Hr).
+    assert (Hns : String.eqb (fd_name fd) "sofa" && memb T_ANNOTATION_BASE (ti_anc ti) = false).
+    { destruct (memb T_ANNOTATION_BASE (ti_anc ti)) eqn:Hbase; [|apply andb_false_r].
+      destruct (String.eqb (fd_name fd) "sofa") eqn:Es; [|reflexivity]. apply String.eqb_eq in Es.
+      destruct (tk_base _ _ Hti Hbase fd Hin) as [Bs _]. rewrite (Bs Es) in Hkind. discriminate. }
+    rewrite Hns. split; [exact Hkind|].
+    destruct Hw as (fd' & Hf' & Hw). rewrite (fd_find_in _ _ (tk_nodup _ _ Hti) Hin) in Hf'. inversion Hf'; subst fd'.
+    rewrite Hw. unfold wrapped_val.
+    destruct Hr as [Hr|Hr]; rewrite Hr; ev is_prim_list_name; ev is_prim_array_name; ev2 String.eqb; cbv iota.
+    + reflexivity.
+    + unfold parse_prim_list. ev2 String.eqb. cbv iota. cbn [toks_of bind]. reflexivity.
+Qed.
+End Pass1c.
+Section Pass1d.
+Variable pf : string -> option flt.
+
+Theorem parse_fs_slot_arr s e ti o fd :
+  sch_find s (reader_tname (x_ns e) (x_tag e)) = Some ti -> ti_ok s ti -> elem_ok s ti e ->
+  is_array_name (ti_name ti) = true -> ti_feats ti = [fd] -> fd_name fd = "elements" -> fd_xname fd = "elements" ->
+  parse_fs pf s e = Ok o ->
+  lo_type o = ti_name ti /\ x_id e = Ok (lo_id o) /\ proto_arr (ti_name ti) e (lslot o "elements").
+Proof.
+  intros Hfind Hti Hel Harr Hfeats Hfn Hfx Hparse.
+  pose proof (sch_find_name _ _ _ Hfind) as Hname.
+  assert (Hin : In fd (ti_feats ti)) by (rewrite Hfeats; left; reflexivity).
+  pose proof (a0_lookup e "elements" (ek_nodup _ _ _ Hel) (ek_attrs _ _ _ Hel) (kids_reserved _ _ _ Hel) eq_refl) as [Lk L0].
+  pose proof (a0_lookup e A_ID (ek_nodup _ _ _ Hel) (ek_attrs _ _ _ Hel) (kids_reserved _ _ _ Hel) eq_refl) as [_ Lid].
+  cbv zeta in Lk, L0, Lid. rewrite (kids_no_id _ _ _ Hel) in Lid. change (pyname A_ID) with A_ID in Lid.
+  change (pyname "elements") with "elements" in Lk, L0.
+  unfold parse_fs, parse_fs_with, get_type_exact in Hparse. rewrite Hfind in Hparse. cbn [bind] in Hparse.
+  apply bind_ok in Hparse as (i & Hi & Hparse). apply bind_ok in Hparse as (a2 & Ha2 & Hparse).
+  apply bind_ok in Hparse as (a3 & Ha3 & Hparse).
+  destruct (lslot_mk ti i a3 o fd Hparse (tk_nodup _ _ Hti) Hin) as (Ht & Hid & Hslot). rewrite Hfn in Hslot.
+  split; [exact Ht|]. split.
+  { rewrite Lid in Hi. unfold x_id. destruct (xattr e A_ID) as [a|]; cbn [option_map] in Hi; [|discriminate]. rewrite Hid. exact Hi. }
+  rewrite Hslot. clear Hslot Hparse.
+  (* the children are not wrapped *)
+  assert (H3 : alookup "elements" a3 = alookup "elements" a2).
+  { destruct (is_prim_array_name (reader_tname (x_ns e) (x_tag e))) eqn:Hpa; [inversion Ha3; reflexivity|].
+    pose proof (wrap_kids_lookup pf (ti_feats ti) _ _ _ Ha3 (dict_of_nodup _) "elements") as Hw. rewrite Lk in Hw.
+    destruct (kt "elements" (x_kids e)) as [|t ts] eqn:Hkt; [exact Hw|]. exfalso.
+    assert (Hk : kt "elements" (x_kids e) <> []) by (rewrite Hkt; discriminate).
+    apply kt_in in Hk. apply in_map_iff in Hk as (kv & Hkv & Hkin).
+    pose proof (ek_kids _ _ _ Hel) as Hko. rewrite Forall_forall in Hko. specialize (Hko kv Hkin).
+    unfold kid_okb in Hko. rewrite Harr in Hko. rewrite !andb_true_iff in Hko. destruct Hko as [_ [Hsa _]].
+    apply String.eqb_eq in Hsa. rewrite <- Hname, Hsa in Hpa. discriminate. }
+  assert (H2 : alookup "elements" a2 = match kt "elements" (x_kids e) with [] => option_map LRaw (xattr e "elements") | ts => Some (LKids ts) end).
+  { assert (H1 : alookup "elements" (adel A_ID (update (dict_of (map (fun kv => (pyname (fst kv), LRaw (snd kv))) (x_attrs e)))
+                  (map (fun kv => (fst kv, LKids (snd kv)))
+                     (dict_of (map (fun kv => (pyname (fst kv), snd kv)) (group_kids (x_kids e) []))))))
+               = match kt "elements" (x_kids e) with [] => option_map LRaw (xattr e "elements") | ts => Some (LKids ts) end).
+    { rewrite alookup_adel_ne; [exact L0|reflexivity]. }
+    destruct (memb T_ANNOTATION_BASE (ti_anc ti)); [|inversion Ha2; subst; exact H1].
+    pose proof (intify_lookup _ _ _ Ha2 "elements") as [I1 _]. rewrite (I1 eq_refl). exact H1. }
+  rewrite H3, H2. unfold proto_arr. rewrite kt_xkids.
+  destruct (xkids e "elements") as [|k0 kr] eqn:Hkids; cbn [map].
+  - destruct (xattr e "elements"); reflexivity.
+  - split; [|reflexivity].
+    assert (Hk : In "elements" (map fst (x_kids e))).
+    { apply kt_in. rewrite kt_xkids, Hkids. discriminate. }
+    apply in_map_iff in Hk as (kv & Hkv & Hkin).
+    pose proof (ek_kids _ _ _ Hel) as Hko. rewrite Forall_forall in Hko. specialize (Hko kv Hkin).
+    unfold kid_okb in Hko. rewrite Harr in Hko. rewrite !andb_true_iff in Hko. destruct Hko as [_ [Hsa _]].
+    apply String.eqb_eq in Hsa. exact Hsa.
+Qed.
+End Pass1d.
+(* ================================================================================================ C05, part 4:
+   pass 1 and pass 2 together, per feature *)
+Section PerFeature.
+Variable pf : string -> option flt.
+
+Lemma ordinary_of_ok s ti : ti_ok s ti -> is_array_name (ti_name ti) = false -> ordinary ti.
+Proof.
+  intros Hti Harr. split; [exact Harr|]. rewrite (tk_sa _ _ Hti). unfold is_array_name, is_prim_array_name, prim_array_names in Harr.
+  cbn [memb] in Harr. rewrite !orb_false_iff in Harr. unfold T_STRING_ARRAY. tauto.
+Qed.
+
+(* a feature of an ordinary element other than the sofa reference of an annotation: what the two passes of the reader
+   make of the attribute / child elements is what the denotation reads there *)
+Theorem reader_feature_is_denotation s sofas fss views objs e ti o fd v1 c :
+  sch_find s (reader_tname (x_ns e) (x_tag e)) = Some ti -> ti_okb s ti = true -> elem_okb s e = true ->
+  is_array_name (ti_name ti) = false -> In fd (ti_feats ti) ->
+  String.eqb (fd_name fd) "sofa" && memb T_ANNOTATION_BASE (ti_anc ti) = false ->
+  deref_ok fss objs ->
+  parse_fs pf s e = Ok o ->
+  post_feature pf s sofas fss ti fd (lslot o (fd_name fd)) = Ok v1 ->
+  dec_feature pf s (fun z => z) false e fd = Ok c ->
+  cv views objs v1 = Ok c.
+Proof.
+  intros Hfind Hti Hel Harr Hin Hns Hd Hparse Hpost Hdec.
+  apply ti_okb_ok in Hti. pose proof (elem_okb_ok s e ti Hfind Hel) as Hel'.
+  destruct (parse_fs_slot pf s e ti o fd Hfind Hti Hel' Harr Hparse Hin) as (_ & _ & Hslot).
+  unfold slot_rel in Hslot. rewrite Hns in Hslot.
+  eapply (post_feature_dec pf s sofas fss views objs Hd ti fd e); eauto. apply (ordinary_of_ok s); assumption.
+Qed.
+
+(* an array stored as an element of its own *)
+Theorem reader_elements_is_denotation s sofas fss views objs e ti o fd k v1 c :
+  sch_find s (reader_tname (x_ns e) (x_tag e)) = Some ti -> ti_okb s ti = true -> elem_okb s e = true ->
+  is_primitive s T_TOP = false ->
+  is_array_name (ti_name ti) = true -> coll_kind (ti_name ti) = Some k -> ti_feats ti = [fd] ->
+  deref_ok fss objs ->
+  parse_fs pf s e = Ok o ->
+  post_feature pf s sofas fss ti fd (lslot o (fd_name fd)) = Ok v1 ->
+  dec_coll pf k e "elements" = Ok c ->
+  cv views objs v1 = Ok (match c with Some l => CColl "" l | None => CNull end).
+Proof.
+  intros Hfind Hti Hel Htop Harr Hk Hfeats Hd Hparse Hpost Hdec.
+  apply ti_okb_ok in Hti. pose proof (elem_okb_ok s e ti Hfind Hel) as Hel'.
+  destruct (tk_arr _ _ Hti Harr) as (fd' & Hf' & Hn & Hx & Hr). rewrite Hfeats in Hf'. inversion Hf'; subst fd'.
+  destruct (parse_fs_slot_arr pf s e ti o fd Hfind Hti Hel' Harr Hfeats Hn Hx Hparse) as (_ & _ & Hslot).
+  rewrite Hn in Hpost.
+  eapply (post_elements_dec pf s sofas fss views objs Hd ti fd k e); eauto. apply (tk_sa _ _ Hti).
+Qed.
+End PerFeature.
